@@ -118,6 +118,27 @@ bool prop_C10(Tape& t, Report& rep)
     rep.decoded = st.transcript;
     rep.eval();
     for (auto& kv : st.cls) rep.cls(kv.first, kv.second);
+    if (st.boundary && !opt("dump_corpus").empty() && !rep.frozen)
+    {
+        // seed corpus for the libFuzzer half: the tape bytes of sessions that cross a buffer boundary
+        static int dumped = 0;
+        if (dumped < 6)
+        {
+            char name[64];
+            snprintf(name, sizeof name, "/seed-%016llx.bin", (unsigned long long)fnv1a(st.transcript));
+            FILE* f = fopen((opt("dump_corpus") + name).c_str(), "wb");
+            if (f)
+            {
+                for (size_t i = 0; i < t.n; ++i)
+                {
+                    unsigned char b[4] = {(unsigned char)(t.p[i]), (unsigned char)(t.p[i] >> 8), (unsigned char)(t.p[i] >> 16), (unsigned char)(t.p[i] >> 24)};
+                    fwrite(b, 1, 4, f);
+                }
+                fclose(f);
+                ++dumped;
+            }
+        }
+    }
     if (st.boundary)
     {
         rep.nontriv(fnv1a(st.transcript));
